@@ -36,6 +36,17 @@ RefOnPath(I, p) == \/ IsRefAt(I, p)
                    \/ (Through(I, p) # {} /\ LET i == Via(I, p) IN
                          IsSet(I[i].val) /\ RefOnPath(I[i].val.items, Drop(p, Len(I[i].ap))))
 
+\* C05 "every other attribute path still has its previous value", beyond the addressed layer: the attribute
+\* TREES of the body and of all other let layers are what they were (C09_Addressing is the stricter, textual form)
+LT(ls) == [i \in 1..Len(ls) |-> TreeOf(ls[i])]
+OthersKept(pre, post, sel, created, pruned) ==
+    IF sel = 0 THEN LT(post.layers) = LT(pre.layers)
+    ELSE /\ TreeOf(post.body.items) = TreeOf(pre.body.items)
+         /\ IF created THEN post.layers # <<>> /\ LT(SubSeq(post.layers, 1, Len(post.layers) - 1)) = LT(pre.layers)
+            ELSE IF pruned THEN LT(post.layers) = LT(RemoveAt(pre.layers, Len(pre.layers) - sel + 1))
+            ELSE /\ Len(post.layers) = Len(pre.layers)
+                 /\ \A i \in 1..Len(post.layers) : i # Len(post.layers) - sel + 1 => TreeOf(post.layers[i]) = TreeOf(pre.layers[i])
+
 Clauses(pre, e) ==
     LET post == e.post
         o0 == e.op
@@ -47,6 +58,7 @@ Clauses(pre, e) ==
         pruned == o.sel > 0 /\ Len(post.layers) < Len(pre.layers)
         okShape == post.shape = "ok" /\ (o.sel = 0 \/ pruned \/ o.sel <= Len(post.layers))
         J == IF ~okShape \/ pruned THEN <<>> ELSE ItemsAt(post, o.sel)
+        vcom == o0.vc # <<>>       \* the value text carries comments: where they are attached is not prescribed
         viaRef == \/ o.f = "set" /\ RefOnPath(I, o.path)      \* C11 decides these
                   \/ Inherited(I, o.path) # {}                \* an inherited name is a reference, too
     IN
@@ -62,11 +74,12 @@ Clauses(pre, e) ==
          IF viaRef THEN (IF NoDuplicate(I) /\ ~NoDuplicate(J) THEN {"C05_NoDuplicate"} ELSE {}) ELSE
            (IF o.f = "set" /\ ~SetEffect(I, J, o.path, o.v) THEN {"C05_Effect"} ELSE {}) \cup
            (IF o.f = "rm" /\ ~RmEffect(I, J, o.path) THEN {"C05_Effect"} ELSE {}) \cup
-           (IF o.f = "set" /\ ~SetFrame(I, J, o.path) THEN {"C04_Frame"} ELSE {}) \cup
+           (IF o.f = "set" /\ ~vcom /\ ~SetFrame(I, J, o.path) THEN {"C04_Frame"} ELSE {}) \cup
            (IF o.f = "rm" /\ ~RmFrame(I, J, o.path) THEN {"C04_Frame"} ELSE {}) \cup
-           (IF o.f = "set" /\ ~(SetForm(I, J, o.path) /\ FreshGoesLast(I, J, o.path)) THEN {"C05_Form"} ELSE {}) \cup
+           (IF o.f = "set" /\ ~vcom /\ ~(SetForm(I, J, o.path) /\ FreshGoesLast(I, J, o.path)) THEN {"C05_Form"} ELSE {}) \cup
            (IF NoDuplicate(I) /\ ~NoDuplicate(J) THEN {"C05_NoDuplicate"} ELSE {}) \cup
-           (IF e.canon /\ ~e.region_ok THEN {"C04_Bytes"} ELSE {}) \cup
+           (IF ~OthersKept(pre, post, o.sel, created, pruned) THEN {"C05_OthersKept"} ELSE {}) \cup
+           (IF e.canon /\ ~vcom /\ ~e.region_ok THEN {"C04_Bytes"} ELSE {}) \cup
            (IF ~( /\ OthersUntouched(pre, post, o.sel)
                   /\ ((o.sel > 0 /\ ~created /\ ~pruned) =>
                         /\ Len(post.layers) = Len(pre.layers)
@@ -75,7 +88,11 @@ Clauses(pre, e) ==
                   /\ (pruned => post.layers = RemoveAt(pre.layers, Len(pre.layers) - o.sel + 1)) )
             THEN {"C09_Addressing"} ELSE {}) \cup
            \* comments: none lost, invented or reordered by `set'; `rm' may only lose some (those attached to the item)
-           (IF o.f = "set" /\ post.allc # pre.allc THEN {"C04_Comments"} ELSE {}) \cup
+           \* (a value text that carries comments brings exactly those, once, in one place)
+           (IF o.f = "set" /\ ~vcom /\ post.allc # pre.allc THEN {"C04_Comments"} ELSE {}) \cup
+           (IF o.f = "set" /\ vcom /\ SetEffect(I, J, o.path, o.v) /\ ~(\E i \in 0..Len(pre.allc) :
+                   post.allc = SubSeq(pre.allc, 1, i) \o o0.vc \o SubSeq(pre.allc, i + 1, Len(pre.allc)))
+            THEN {"C04_Comments"} ELSE {}) \cup
            (IF o.f = "rm" /\ ~IsSubSeq(post.allc, pre.allc) THEN {"C04_Comments"} ELSE {}) \cup
            (IF pre.nl = 1 /\ post.nl # 1 THEN {"C04_FinalNewline"} ELSE {}))
     ELSE
